@@ -28,6 +28,7 @@ CONSTANTS
   MaxNoise = 0
   Catalogue <- MCCatalogue
   Export = FALSE
+  ExportMod = 1
 INVARIANT RejectsNSC
 INVARIANT FinishTotal
 INVARIANT GridExact
